@@ -267,6 +267,40 @@ def layer_inplace_macro(ctx, n):
             check_exception(ctx, e, clsname, want, what, replay)
 
 
+class TreeNode:
+    def __init__(self, name, child=None):
+        self.name, self.child = name, child
+
+
+def layer_recursive_render(ctx, n):
+    """A template that renders itself (tree / menu rendering through ${structure: template.render(...)}): every
+    enclosing level is a call site and is recorded, however alike the records look."""
+    from chameleon import PageTemplate
+    rng = ctx.rng
+    for i in range(n):
+        depth = rng.randint(0, 5)
+        lead = rng.choice(['', '\n', '<!-- c -->\n  '])
+        expr = 'template.render(node=node.child, f=f) if node.child else f(node)'
+        src = lead + '<div>${node.name}' + rng.choice(['', '\n  ']) + '${structure: %s}</div>' % expr
+        clsname = rng.choice(['KeyError', 'ValueError', 'TwoArgs', 'ZeroDivisionError', 'StrOverride'])
+
+        def f(node, clsname=clsname):
+            raise MAKERS[clsname]()
+        node = None
+        for k in range(depth + 1):
+            node = TreeNode('n%d' % k, node)
+        rec = (expr, '<string>') + line_col(src, src.index(expr))
+        want = [rec] * (depth + 1)
+        what = 'template %r rendering itself %d level(s) deep, %s raised at the innermost level (recursive)' % (src, depth, clsname)
+        replay = {'kind': 'recursive', 'src': src, 'depth': depth, 'cls': clsname}
+        ctx.case(key=('recursive', depth, bool(lead), clsname), nontrivial=True)
+        try:
+            out = PageTemplate(src)(node=node, f=f)
+            ctx.violation('failure-swallowed', what + ': render returned %r' % out[:80], replay)
+        except BaseException as e:   # noqa
+            check_exception(ctx, e, clsname, want, what, replay)
+
+
 def layer_file_chain(ctx, n):
     from chameleon import PageTemplateFile
     rng = ctx.rng
@@ -318,6 +352,7 @@ def run(ctx):
     layer_string_templates(ctx, 60 if ctx.quick else 1000)
     layer_file_chain(ctx, 12 if ctx.quick else 200)
     layer_inplace_macro(ctx, 25 if ctx.quick else 400)
+    layer_recursive_render(ctx, 20 if ctx.quick else 300)
 
 
 def replay(data):
